@@ -100,7 +100,8 @@ def table_case(draw):
                      "box": draw(st.sampled_from([None, "SQUARE", "ASCII"])), "show_header": False, "show_footer": False, "show_edge": draw(st.booleans()), "show_lines": False, "leading": 0,
                      "padding": [0, draw(st.integers(0, 1))], "pad_edge": False, "collapse_padding": False, "expand": False, "title": None, "caption": None}
             cells.append(t)
-        rows.append({"cells": cells, "end_section": draw(st.sampled_from([False, False, False, True])), "style": draw(st.sampled_from([None, None, "on blue"])), "short": short})
+        rows.append({"cells": cells, "end_section": draw(st.sampled_from([False, False, False, True])), "style": draw(st.sampled_from([None, None, "on blue"])), "short": short,
+                     "rejected_before": draw(st.one_of(st.none(), st.none(), st.none(), st.integers(0, 5)))})
     node = {
         "k": "table", "cols": cols, "rows": rows, "implicit": implicit,
         "box": draw(st.one_of(st.none(), st.sampled_from(GT.BOXES), st.sampled_from(GT.BOXES))),
@@ -146,8 +147,19 @@ def build_table(n, W, smin, annotations=True):
     )
     for c in ([] if headers else n["cols"][:declared]):
         t.add_column(Text(c["header"]), Text(c["footer"]), justify=c["justify"], overflow=c["overflow"], ratio=c["ratio"], max_width=c["max_width"])
+    from rich.errors import NotRenderableError
+
     for r in n["rows"]:
         cells = r["cells"][:declared] if r.get("short") else r["cells"]
+        if r.get("rejected_before") is not None and cells:
+            # history: an add_row() with a value that cannot be rendered (an int) was rejected just before this row ("try raw values, fall back to str()"):
+            # the rejected row leaves nothing behind
+            bad = [GT.build(c) for c in cells]
+            bad[r["rejected_before"] % len(bad)] = 12345
+            try:
+                t.add_row(*bad)
+            except NotRenderableError:
+                pass
         t.add_row(*[GT.build(c) for c in cells], end_section=r["end_section"], style=r["style"])
     return t, width, min_width
 
